@@ -710,6 +710,7 @@ RefResult run(const Model& m, const char* bytes, int64_t n, const RunOptions& op
 
         if (consuming)
         {
+            if (cur.term == g.eof_idx()) res.eof_acted_on_in_consume = true;
             consuming = false;
             Act a; a.k = Act::LEAVE_CONSUME; a.line = line; a.col = col;
             res.acts.push_back(a);
@@ -749,7 +750,7 @@ RefResult run(const Model& m, const char* bytes, int64_t n, const RunOptions& op
 
         if (act.k == Action::REDUCE)
         {
-            if (recovering) res.reduce_on_error_token = true;
+            if (recovering) { res.reduce_on_error_token = true; if (pops_this_recovery > 0) res.reduce_after_pop = true; }
             if (act.arg < 0 || size_t(act.arg) >= g.rules.size()) { res.step_limit = true; break; }
             const RuleSpec& r = g.rules[size_t(act.arg)];
             size_t k = r.rhs.size();
